@@ -3,7 +3,7 @@
 // DESIGN.md 1.7(3); decides nothing about tetl).
 #ifndef VF_CALENDAR_MODEL_H
 #define VF_CALENDAR_MODEL_H
-// sys_days of -32767-01-01 and 32767-12-31 (computed independently of both libraries; cross-checked against libstdc++ below)
+// sys_days of -32767-01-01 and 32767-12-31 (computed independently of both libraries; static_assert-ed against libstdc++ in driver.cpp)
 #define ZMIN (-12687428)
 #define ZMAX (11248737)
 #define YMIN (-32767)
